@@ -169,7 +169,7 @@ func (g *Gen) paramListText(sep string, lws bool) string {
 		}
 		name := r.Alnum(1, 6)
 		if r.P(35) {
-			name = r.ReCase(uriParamNames[r.N(len(uriParamNames))])
+			name = r.KnownParamName()
 		}
 		sb.WriteString(name)
 		switch r.N(5) {
